@@ -51,7 +51,8 @@ class explore:
     (None = all kinds).  After iteration: .execs, .capped (True if max_execs cut it short).
     """
 
-    def __init__(self, run_one, max_dev=None, max_execs=None, dev_kinds=None):
+    def __init__(self, run_one, max_dev=None, max_execs=None, dev_kinds=None, prefix=()):
+        self.prefix = list(prefix)
         self.run_one = run_one
         self.max_dev = max_dev
         self.max_execs = max_execs
@@ -60,7 +61,7 @@ class explore:
         self.capped = False
 
     def __iter__(self):
-        stack = [([], None)]
+        stack = [(self.prefix, None)]
         dev_kinds, max_dev = self.dev_kinds, self.max_dev
         while stack:
             prefix, expect = stack.pop()
